@@ -30,6 +30,7 @@ type admConn struct {
 	remote   string
 	keepData bool
 	data     []byte
+	failFrom int // > 0: the failFrom-th write and every later one fail (the peer is gone; the reader is not told)
 }
 
 func newAdmConn(remote string) *admConn {
@@ -62,6 +63,9 @@ func (c *admConn) Write(b []byte) (int, error) {
 		return 0, io.ErrClosedPipe
 	}
 	c.nwrites++
+	if c.failFrom > 0 && c.nwrites >= c.failFrom {
+		return 0, errors.New("admConn: write failed")
+	}
 	c.nbytes += len(b)
 	if c.keepData {
 		c.data = append(c.data, b...)
@@ -88,6 +92,13 @@ func (c *admConn) release() {
 	c.mu.Lock()
 	c.eof = true
 	c.cond.Broadcast()
+	c.mu.Unlock()
+}
+
+// failWritesFrom makes the k-th write counted from now (k >= 1) and every later one fail
+func (c *admConn) failWritesFrom(k int) {
+	c.mu.Lock()
+	c.failFrom = c.nwrites + k
 	c.mu.Unlock()
 }
 
